@@ -213,8 +213,10 @@ def run_check(pid, tier, seed):
           f"known={sum(len(v) for v in old.values())} wall={wall:.1f}s")
     if harness_errors:
         for e in harness_errors[:5]:
-            print("HARNESS-ERROR:", e, file=sys.stderr)
-        return 2
+            print("HARNESS-ERROR:", str(e)[:600], file=sys.stderr)
+        # a violation that was found and written out stands even if other shards could not be evaluated
+        # (e.g. the changed library crashed a worker process); without one, the run is a harness error
+        return 1 if new else 2
     if cov["states"] < 1 or cov["transitions"] < 1:
         print("HARNESS-ERROR: vacuous run (no states / transitions)", file=sys.stderr)
         return 2
